@@ -153,6 +153,8 @@ type FnExec struct {
 	callResults map[string]specVar
 	callArgs    map[string][]specVar
 	calledCell  map[string]int
+	panickingVar *Term
+	recoveredCell int
 	constGlobalsUsed []*constGlobal
 	curClosure  *ssa.MakeClosure
 	entryFacts int
@@ -920,6 +922,16 @@ func (e *FnExec) run() {
 	e.entry = st.clone()
 	e.initCalledGhosts(st)
 	e.initCallArgGhosts()
+	for _, b := range fn.Blocks {
+		for _, ins := range b.Instrs {
+			if ci, ok := ins.(ssa.CallInstruction); ok {
+				if bi, ok := ci.Common().Value.(*ssa.Builtin); ok && bi.Name() == "recover" {
+					e.ensurePanicCells(st)
+					st.cells[e.recoveredCell] = False
+				}
+			}
+		}
+	}
 	e.bindParams(st)
 	e.assumeRequires(st)
 	e.constGlobalFacts(st)
